@@ -309,15 +309,12 @@ impl<'l, T: Debug> LocalQueue<'l, T> {
                         .stealer()
                         .steal(self.queue, |n| {
                             //可偷取的最大长度与本地队列可偷长度做比较
+                            // `n` is the victim's length as the steal itself sees it; asking
+                            // the victim's worker (`spare_capacity`) from this thread races with
+                            // its owner and may see more items than the ring holds
                             n.min(self.max_steal())
                                 //与其他队列当前长度的一半做比较
-                                .min(
-                                    another
-                                        .capacity()
-                                        .saturating_sub(another.spare_capacity())
-                                        .saturating_add(1)
-                                        .saturating_div(2),
-                                )
+                                .min(n.saturating_add(1).saturating_div(2))
                         })
                         .is_ok()
                     {
